@@ -17,6 +17,8 @@ ROOT = os.path.dirname(os.path.dirname(os.path.abspath(__file__)))
 def netns(cmd):
     """run go tests in a private network namespace: other jobs on the host hold the ports the project's tests bind"""
     import shlex
+    if os.environ.get("SEEDVERIFY_NONETNS"):   # demos that need real interfaces (WebRTC ICE gathering)
+        return cmd
     return ["unshare", "-rn", "sh", "-c", "ip link set lo up; exec " + " ".join(shlex.quote(c) for c in cmd)]
 
 
